@@ -22,7 +22,7 @@ PROPS = {
             "Lean model of leb128.rs / number.rs / de.rs fast paths is hand-written; equality with the Rust is established only on the generated inputs",
             "release/debug: both profiles are run and compared with the same model",
         ],
-        "partial": [],
+        "partial": ["signed *decoders* (Int::decode, leb128::decode_int, the i64 fast path of de.rs) and the big-number path of Int::encode are established by correspondence only; theorems now cover: unsigned round trip / minimality / exact + total decode for Nat and u128, signed minimal encoding round trip (spec level), Nat::encode = minimal encoding on both paths, the signed encoder loop = minimal encoding"],
     },
     "C16": {
         "profiles": ["debug"],
@@ -205,9 +205,7 @@ PROPS = {
             "native (Rust-typed) expected types are exercised on the hostile stream in C08's corpus run",
             "real stack exhaustion on small thread stacks, allocator failure and wasm targets are outside what a model can exhibit (runtime-dependent part, see DESIGN.md section 7)",
         ],
-        "partial": [
-            "proved: leaf readers (LEB128 of both crates' flavours, lengths, principals, Nat::decode, u128 decode) and add_cost never panic, zero depth budget is an error; totality of the whole decoder and the resource bounds (steps <= c*(|input| + quota)) are not yet theorems",
-        ],
+        "partial": ["the resource bounds (memory proportional to input, time proportional to charged cost) are argued from the cost lemmas, not proved end to end; theorems now cover totality of the whole decoder mirror: untyped decoding of every byte string under every quota never reaches the panic outcome (header parser, subtype checker, the four mutually recursive entry points, back-tracking, argument loop); typed decoding under a safe caller environment; a parsed header always yields a safe table"],
     },
     "C07": {
         "profiles": ["debug"],
